@@ -347,15 +347,22 @@ def check_strings(ctx, R):
 SOUP = list("\\\\\\\\'\"xuUN01789abfnrtvz{} \n\r") + ["é", "\U0001F600"]
 
 
-def python_value(lit, b, q):
-    """Python's value of the quoted text (triple-quoted when the body has raw line breaks), or None"""
+def python_value(lit, b, q, nl="\n"):
+    """Python's value of the quoted text, or None.  A body with raw line breaks is read as a triple-quoted
+    literal; a raw break that is not the tail of a backslash-newline continuation stands for the environment's
+    newline_sequence (documented normalisation of template text), so it is carried through Python's reading as a
+    private-use character and replaced afterwards."""
+    import re
     try:
         with warnings.catch_warnings():
             warnings.simplefilter("ignore")
             if "\n" not in b and "\r" not in b:
                 return ast.literal_eval(lit)
-            if q not in b and not b.endswith("\\"):
-                return ast.literal_eval(q * 3 + b + q * 3)
+            if q in b or b.endswith("\\") or "\ue000" in b:
+                return None
+            t = re.sub(r"\r\n|\r", "\n", b)
+            t = re.sub(r"(?<!\\)((?:\\\\)*)\n", "\\1\ue000", t)      # breaks after an even run of backslashes
+            return ast.literal_eval(q * 3 + t + q * 3).replace("\ue000", nl)
     except Exception:  # noqa
         return None
     return None
@@ -538,6 +545,11 @@ def escape_soup(ctx, R):
     bodies = ["a\nb", "a\rb", "a\r\nb", "\r", "\n\n", "a\r\rb", "x\n\ry", "\\n\n", "é\r\n😀", "\\x4", "\\x4g", "\\u12", "\\U0011000", "\\U00110000", "\\U0010ffff", "\\777", "\\8", "\\0", "\\1a", "\\z",
               "\\\n", "a\\\nb", "\\N{DASH}", "\\N", "\\", "\\\\", "\\xZZ", "\\u00e9", "\\ud800", "\\x41\\101\\u0041",
               "\r\n", "a\rb", "a\r\nb", "\n\r", "\\\r\n", "\\\r"]
+    # runs of 0..7 backslashes in front of every class of following character, in three contexts
+    for k in range(0, 8):
+        for nxt in ("é", "\U0001F600", "\u0416", "z", "n", "x41", "u00e9", "\n", "'", '"', "7", " ", ""):
+            for pre, post in (("", ""), ("a", "b"), ("é", "\\é")):
+                bodies.append(pre + "\\" * k + nxt + post)
     for _ in range(ctx.size(1800, 40000)):
         bodies.append("".join(rng.choice(SOUP) for _ in range(rng.randint(1, 7))))
     # third pass: the default environment AFTER an environment with another newline_sequence has lexed the same
@@ -560,7 +572,7 @@ def escape_soup(ctx, R):
             if rl != ml:
                 # a literal Python reads (one-line, or triple-quoted for raw line breaks) that the lexer does not
                 # read as one string token of the same text: the property fails on it
-                pyv0 = python_value(lit, b, q) if nlname.startswith("LF") else None
+                pyv0 = python_value(lit, b, q, nl)
                 why0 = None
                 if pyv0 is not None and "\\N" not in b and (rl == "none" or rlen != len(src_norm(lit))):
                     why0 = f"Python reads {lit!r} as {pyv0!r}; the template lexer does not read it as one string literal"
@@ -583,15 +595,9 @@ def escape_soup(ctx, R):
             try:
                 with warnings.catch_warnings():
                     warnings.simplefilter("ignore")
-                    if "\n" not in b and "\r" not in b:
-                        pyv = ast.literal_eval(lit)
-                    elif nlname.startswith("LF") and q not in b and not b.endswith("\\"):
-                        # raw line breaks: with the default newline_sequence the literal must denote what
-                        # Python gives the same text in a triple-quoted literal (CR, CRLF -> LF)
-                        pyv = ast.literal_eval(q * 3 + b + q * 3)
+                    pyv = python_value(lit, b, q, nl)
+                    if pyv is not None and ("\n" in b or "\r" in b):
                         ctx.count("str/raw-break-vs-python")
-                    else:
-                        pyv = None
             except Exception:  # noqa
                 pyv = None
             if pyv is not None and real.startswith("ok ") and uncps(real[3:]) != pyv and "\\N" not in b:
